@@ -1,5 +1,6 @@
 import TR.Lemmas.Cache
 import TR.Lemmas.CacheFifo
+import TR.Lemmas.CacheTtl
 /-!
 # C10 — cache hits return the latest unexpired value of the right key; size is bounded; the victim follows the policy
 
@@ -123,6 +124,39 @@ theorem cached_values_are_ok_responses (cfg : Cfg) (ops : List Op) (e : Entry) (
   have h2 := (inv_reachable cfg ops).2.1
   exact ⟨h2.okDone _ hf, h2.rightKey _ hf⟩
 
+/-! ## the TTL boundary, at the resolution of the clock
+
+The instants of the model are whole clock ticks and the model does not know the length of a tick: the
+correspondence check runs it with 1 ms ticks and (`tick=us`) with 1 µs ticks, TTLs that are and are not
+whole milliseconds included. `hit_is_latest` says a hit is never older than the TTL; the two theorems
+below say the boundary is exactly there, in every unit. -/
+
+/-- **Served up to the TTL, not one tick longer.** After any history, for a key that is stored and a TTL
+of `d` ticks: the store's entry carries the instant `t` of the latest successful completion for the key,
+and the lookup hits (with that completion's value) exactly when `now − t ≤ d`, misses — removing the
+entry, so that the inner service is called (`miss_calls_once`) — exactly when `now − t > d`. -/
+theorem ttl_boundary_exact (cfg : Cfg) (ops : List Op) (k d : Nat) (e : Entry)
+    (httl : cfg.ttl = some d) (hf : find (run cfg ops).store k = some e) :
+    lookup (run cfg ops).stored k = some (e.val, e.ins) ∧
+    ((storeGet cfg (run cfg ops).now (run cfg ops).tick (run cfg ops).store k).2 = some e.val
+      ↔ (run cfg ops).now - e.ins ≤ d) ∧
+    ((storeGet cfg (run cfg ops).now (run cfg ops).tick (run cfg ops).store k).2 = none
+      ↔ d < (run cfg ops).now - e.ins) ∧
+    (d < (run cfg ops).now - e.ins →
+      (storeGet cfg (run cfg ops).now (run cfg ops).tick (run cfg ops).store k).1 = rm k (run cfg ops).store) := by
+  have hfr := (inv_reachable cfg ops).1.fresh e (find_some hf).1
+  rw [(find_some hf).2] at hfr
+  refine ⟨hfr, (storeGet_hit_iff hf httl).1, (storeGet_hit_iff hf httl).2, fun hlt => ?_⟩
+  have hx : expired cfg.ttl (run cfg ops).now e = true := by rw [httl]; exact expired_some_iff.mpr hlt
+  rw [storeGet_expired hf hx]
+
+/-- **The expiry test does not depend on the unit of the clock**: the same stamp, instant and TTL
+expressed in a unit `c` times finer (milliseconds → microseconds: `c = 1000`) give the same answer. A
+test on quantities truncated to a coarser unit does not have this property (second example below). -/
+theorem expiry_is_unit_free (c : Nat) (hc : 0 < c) (ttl : Option Nat) (now : Nat) (e : Entry) :
+    expired (ttl.map (· * c)) (now * c) { e with ins := e.ins * c } = expired ttl now e :=
+  expired_scale c hc ttl now e
+
 /-! ## the victim
 
 The store a successful completion produces is `storeInsert cfg now tick store key serial w`
@@ -175,6 +209,24 @@ theorem victim_lfu (cfg : Cfg) (ops : List Op) (hp : cfg.policy = .lfu)
   rw [hp] at hst
   rw [storeInsert_lfu hp]
   exact insertLfu_victim (cap_pos cfg) hst hnew hfull
+
+/-- **LFU, unique minimum: no choice is left.** If one stored entry `m` has a count strictly below the
+count of every other stored entry — in a store of any size — then inserting a new key into the full
+store removes `m`, whatever `w` the implementation's hash-map order suggests. (The correspondence
+check builds stores of up to 40 entries with a unique least-frequently-used entry and reads the
+victim back.) -/
+theorem victim_lfu_unique_min (cfg : Cfg) (ops : List Op) (hp : cfg.policy = .lfu)
+    (now k v w : Nat) (hnew : find (run cfg ops).store k = none)
+    (hfull : (run cfg ops).store.length ≥ cfg.cap)
+    (m : Entry) (hm : m ∈ (run cfg ops).store)
+    (huniq : ∀ y ∈ (run cfg ops).store, y.key ≠ m.key → m.cnt < y.cnt) :
+    (storeInsert cfg now (run cfg ops).tick (run cfg ops).store k v w).victim = some m ∧
+    Evicts (run cfg ops).store (storeInsert cfg now (run cfg ops).tick (run cfg ops).store k v w).items
+      { key := k, val := v, ins := now, cnt := 1, used := (run cfg ops).tick, born := (run cfg ops).tick } m := by
+  obtain ⟨x, hv, hev, hmin, _⟩ := victim_lfu cfg ops hp now k v w hnew hfull
+  have hxm : x = m := unique_min_is_victim (keys_unique cfg ops) hev.1 hm hmin huniq
+  subst hxm
+  exact ⟨hv, hev⟩
 
 /-- Nothing is evicted otherwise: when the key is already present (update) or the store has room,
 every entry of another key survives the insert with its value and `inserted_at`. -/
@@ -296,6 +348,37 @@ example :
     ((run cfg (ops ++ [.arrive 6 2 0 ⟨0, .ok⟩, .poll 6 0])).store.map (·.key)) = [1, 3, 4, 2] ∧
     ((run cfg (ops ++ [.arrive 6 2 0 ⟨0, .ok⟩, .poll 6 0, .arrive 7 5 0 ⟨0, .ok⟩, .poll 7 0,
                        .arrive 8 6 0 ⟨0, .ok⟩, .poll 8 0])).store.map (·.key)) = [4, 2, 5, 6] := by decide
+
+/-- 1 µs ticks, TTL 5 ms = 5000: stored at 300, a hit at age 5000 exactly, a miss at age 5001 and at age
+5200 — where both the age and the TTL truncate to 5 whole milliseconds (`5500 / 1000 > 5000 / 1000` is
+false). TTL 5200 (not a whole millisecond): hit at age 5200, miss at 5201 and 5999. -/
+example :
+    let cfg : Cfg := { max := 2, ttl := some 5000, policy := .lru }
+    let cfg2 : Cfg := { max := 2, ttl := some 5200, policy := .lfu }
+    let ops := [Op.adv 300, .arrive 1 1 0 ⟨0, .ok⟩, .poll 1 0]
+    ((run cfg ops).store.map (fun e => (e.key, e.ins))) = [(1, 300)] ∧
+    (storeGet cfg 5300 (run cfg ops).tick (run cfg ops).store 1).2 = some 0 ∧
+    (storeGet cfg 5301 (run cfg ops).tick (run cfg ops).store 1).2 = none ∧
+    (storeGet cfg 5500 (run cfg ops).tick (run cfg ops).store 1).2 = none ∧
+    ((run cfg (ops ++ [.adv 5200, .arrive 2 1 0 ⟨0, .ok⟩])).log.getLast? = some (.innerCall 2 1)) ∧
+    (storeGet cfg2 5500 (run cfg2 ops).tick (run cfg2 ops).store 1).2 = some 0 ∧
+    (storeGet cfg2 5501 (run cfg2 ops).tick (run cfg2 ops).store 1).2 = none ∧
+    (storeGet cfg2 6299 (run cfg2 ops).tick (run cfg2 ops).store 1).2 = none ∧
+    decide ((5500 - 300) / 1000 > 5000 / 1000) = false := by decide
+
+/-- LFU, `max = 10` (more entries than any bounded scan of 8 looks at): keys 1..10 stored, every key
+but 9 used once more, so 9 — ninth in insertion order — is the unique least frequently used entry
+(hypotheses of `victim_lfu_unique_min`); key 11 evicts it whatever `w` says, and everything else stays. -/
+example :
+    let cfg : Cfg := { max := 10, ttl := none, policy := .lfu }
+    let fill := (List.range 10).flatMap fun i => [Op.arrive (i + 1) (i + 1) 0 ⟨0, .ok⟩, .poll (i + 1) 0]
+    let uses := ((List.range 10).filter (· != 8)).flatMap fun i => [Op.arrive (i + 21) (i + 1) 0 ⟨0, .ok⟩, .poll (i + 21) 0]
+    let s := run cfg (fill ++ uses)
+    s.store.map (fun e => (e.key, e.cnt)) = [(1, 2), (2, 2), (3, 2), (4, 2), (5, 2), (6, 2), (7, 2), (8, 2), (9, 1), (10, 2)] ∧
+    find s.store 11 = none ∧ s.store.length ≥ cfg.cap ∧
+    (run cfg (fill ++ uses ++ [.arrive 40 11 0 ⟨0, .ok⟩, .poll 40 3])).store.map (·.key) = [1, 2, 3, 4, 5, 6, 7, 8, 10, 11] ∧
+    (run cfg (fill ++ uses ++ [.arrive 40 11 0 ⟨0, .ok⟩, .poll 40 9])).store.map (·.key) = [1, 2, 3, 4, 5, 6, 7, 8, 10, 11] := by
+  decide
 
 /-- a pending call that will fail (hypotheses of `errors_not_cached`), and a parked hit
 (hypothesis of `hit_result`) -/
